@@ -6,7 +6,7 @@ p, x = sys.argv[1], sys.argv[2]
 pfx = sys.argv[3] if len(sys.argv) > 3 else "brk"
 P = p.upper()
 src = "/tmp/%s_%s_out" % (pfx, p)
-label = x if pfx == "brk" else {"A": "C", "B": "D"}[x] if pfx == "brk2" else {"A": "E", "B": "F"}[x] if pfx == "brk3" else {"A": "G", "B": "H"}[x] if pfx == "brk4" else {"A": "I", "B": "J"}[x] if pfx == "brk5" else {"A": "K", "B": "L"}[x]
+label = x if pfx == "brk" else {"A": "C", "B": "D"}[x] if pfx == "brk2" else {"A": "E", "B": "F"}[x] if pfx == "brk3" else {"A": "G", "B": "H"}[x] if pfx == "brk4" else {"A": "I", "B": "J"}[x] if pfx == "brk5" else {"A": "K", "B": "L"}[x] if pfx == "brk6" else {"A": "M", "B": "N"}[x]
 dst = "/verif/seeded/%s-%s" % (P, label)
 os.makedirs(dst, exist_ok=True)
 shutil.copy(os.path.join(src, x + ".diff"), os.path.join(dst, "patch.diff"))
